@@ -753,6 +753,49 @@ theorem encodings_str_eq_candidates (a : Args) (s : PStr) :
 example : Rx.detectorEncodingsStr { isHtml := true } (ofS "<meta char" ++ [0x17F] ++ ofS "et=KOI8-R>") = [ofS "koi8-r", utf8, windows1252] := by
   decide +kernel
 
+/-! ## documents that are empty after their byte-order mark -/
+
+/-- A BOM-only document (`stripBom b = ([], some n)`) with one known-definite name `x` that is not a text
+    encoding accepting the empty input (unknown name, `hex`, `undefined`, …): `x` is skipped and the BOM's own
+    encoding names the result — exactly as for a document with content. (Instance of `dammit_first_clean`;
+    false of the unrepaired `_to_unicode`, see the witness below.) -/
+theorem bom_only_skips_what_is_not_a_codec (C : Codecs) (a : Args) (b : Bytes) (x n r : Name) (hb : b ≠ [])
+    (hbom : stripBom b = ([], some n)) (hk : a.known = [x]) (ho : a.override = [])
+    (hxn : lower x ≠ lower n) (hex : (exclSet a).contains (lower x) = false) (hen : (exclSet a).contains (lower n) = false)
+    (hbad : ∀ r', findCodec C x = some r' → C.decodeStrict r' [] = none)
+    (hr : findCodec C n = some r) (hok : C.decodeStrict r [] = some []) :
+    (dammit C a (.bytes b)).text = some [] ∧ (dammit C a (.bytes b)).originalEncoding = some r ∧
+    (dammit C a (.bytes b)).containsReplacement = false := by
+  have hc : ∃ rest, candidatesOf C a b = [x] ++ n :: rest := by
+    unfold candidatesOf candidates sources
+    rw [hbom]
+    have hnx : (lower n != lower x) = true := by simpa using Ne.symm hxn
+    simp only [hk, ho, List.append_nil, List.cons_append, List.nil_append, Option.toList_some, List.filter_cons, hex, hen,
+      Bool.not_false, if_true, dedupLower_cons, hnx]
+    exact ⟨_, rfl⟩
+  obtain ⟨rest, hc⟩ := hc
+  have h := dammit_first_clean C a b hb [x] rest n r [] hc
+    (fun y hy r' hr' => by
+      simp only [List.mem_singleton] at hy
+      subst hy
+      rw [hbom]; exact hbad r' hr')
+    hr (by rw [hbom]; exact hok)
+  exact h
+
+/-- WITNESS of the repaired defect: under the oracle the unrepaired code effectively saw (CPython's
+    empty-input fast path), the bogus name wins and becomes `original_encoding`; under the real oracle the
+    BOM's encoding does. -/
+theorem old_empty_remainder_took_any_name :
+    (dammit (withEmptyFastPath toy) { known := [ofS "nosuch"] } (.bytes [0xef, 0xbb, 0xbf])).originalEncoding = some (ofS "nosuch") ∧
+    (dammit toy { known := [ofS "nosuch"] } (.bytes [0xef, 0xbb, 0xbf])).originalEncoding = some utf8 ∧
+    (dammit (withEmptyFastPath toy) { known := [ofS "hex"], exclude := [utf8, windows1252] } (.bytes [0xff, 0xfe, 0, 0])).originalEncoding
+      = some (ofS "hex") := by decide +kernel
+
+example : True := by
+  have := bom_only_skips_what_is_not_a_codec toy { known := [ofS "nosuch"] } [0xef, 0xbb, 0xbf] (ofS "nosuch") utf8 utf8 (by decide)
+    (by decide) rfl rfl (by decide) (by decide) (by decide) (by decide) (by decide) (by decide)
+  trivial
+
 /-! ## UnicodeDammit always produces text (for lawful codecs), and where the result comes from -/
 
 /-- Over the WHOLE generated alias table: no key is (a spelling of) one of the two last-ditch names,
